@@ -3,7 +3,7 @@
 mutants/<ID>.txt against check <ID>; print caught/missed per mutant.
 
 File format, one mutant per line:   path:::old text:::new text   # comment
-(\\n and \\t are unescaped in old/new), or   patch:<file under mutants/>   # comment
+(\\n and \\t are unescaped in old/new; \\\\ is a literal backslash), or   patch:<file under mutants/>   # comment
 A trailing "-> ID2,ID3" inside the comment names other checks to run too."""
 import concurrent.futures as cf
 import os
@@ -39,7 +39,7 @@ def main():
         if spec.startswith('patch:'):
             spec = os.path.join(V, 'mutants', spec[6:])
         else:
-            spec = spec.replace('\\n', '\n').replace('\\t', '\t')
+            spec = spec.replace('\\\\', '\x00').replace('\\n', '\n').replace('\\t', '\t').replace('\x00', '\\')
         muts.append((spec, comment))
 
     def one(m):
